@@ -1,5 +1,6 @@
 import AiutiVerif.Buffer.InvStep
 import AiutiVerif.Buffer.Quiet
+import AiutiVerif.Buffer.Once
 import AiutiVerif.Buffer.Props
 /-!
 # Buffer property theorems at run level (C03 conservation, C07 barrier)
@@ -47,7 +48,7 @@ theorem C03_only_submitted (s0 : St) (hf : Fresh s0) (ins : List In) (hn : noShu
     (∀ x ∈ (deliveredOf s.outs).1, x ∈ s.submitted) ∧
     (∀ a, (deliveredOf s.outs).2 = some a → ∀ x ∈ a, x ∈ s.submitted) := by
   have h := runProgram_K s0 ins (K_fresh s0 hf) hn
-  refine ⟨fun x hx => h.only x (Or.inr (Or.inr (Or.inr (Or.inr (Or.inr ((h.outsDeliv x).mp hx)))))), ?_⟩
+  refine ⟨fun x hx => h.only x (Or.inr (Or.inr (Or.inr (Or.inr (Or.inr (by rw [← h.outsDeliv]; exact hx)))))), ?_⟩
   intro a ha x hx
   have hc := h.outsCur
   rw [ha] at hc
@@ -56,6 +57,27 @@ theorem C03_only_submitted (s0 : St) (hf : Fresh s0) (ins : List In) (hn : noShu
     subst hc
     exact h.only x (Or.inr (Or.inr (Or.inr (Or.inr (Or.inl ((mem_sortNat x _).mp hx))))))
   · cases hc
+
+/-- **Exactly once.** If the arguments a program submits (from the loop's own thread or through
+foreign `fput`s) are pairwise distinct, the concatenation of the argument sets of all successful
+calls of the wrapped function — read off the output stream — contains no element twice: no argument
+is ever passed to two successful calls (failed calls do offer their arguments again; they are not
+counted, `deliveredOf` only collects calls that returned). -/
+theorem C03_exactly_once (s0 : St) (hf : Fresh s0) (ins : List In) (hn : noShutdown ins)
+    (hd : (allItems ins).Nodup) : (deliveredOf (runProgram s0 ins).outs).1.Nodup := by
+  have h0 : (s0.submitted ++ allItems ins).Nodup := by
+    obtain ⟨_, _, _, _, _, _, _, _, _, _, _, a12, _⟩ := hf
+    rw [a12]; simpa using hd
+  obtain ⟨hk, hx⟩ := KX_foldl ins s0 (K_fresh s0 hf) (X_fresh s0 hf) hn h0
+  obtain ⟨hk2, hx2⟩ := KX_advance fuelDefault horizon false _ hk hx
+  have : runProgram s0 ins = advance fuelDefault horizon false (ins.foldl applyIn s0) := rfl
+  rw [this, hk2.outsDeliv]
+  exact hx2.delNodup
+
+/-- a failed call is retried with the late arrival: both elements end up in exactly one successful call -/
+example : (deliveredOf (runProgram { T := 1024, outcomes := [(512, false), (0, true)] }
+    [.submit 1 [(0, some 0)], .submit 500 [(0, some 1)], .submit 1600 [(0, some 2)]]).outs).1 = [0, 1, 2] := by
+  decide +kernel
 
 /-- **Everything is delivered once the buffer is at rest**: when the background task is back
 at `await q.get()` with an empty queue, every submitted element has been an argument of a call
@@ -84,7 +106,7 @@ theorem C03_all_delivered_at_rest (s0 : St) (hf : Fresh s0) (ins : List In) (hn 
   · rw [hc] at h1; cases h1
   · rw [hp] at h1; cases h1
   · rw [hi] at h1; cases h1
-  · exact (h.outsDeliv x).mpr h1
+  · rw [h.outsDeliv]; exact h1
 
 /-! ## C07 — `wait()` is a barrier -/
 
@@ -98,14 +120,14 @@ theorem C07_barrier (s0 : St) (hf : Fresh s0) (ins : List In) (hn : noShutdown i
     waitIds s.outs = s.retLog.map (·.1) ∧
     ∀ r ∈ s.retLog, ∀ x ∈ s.submitted.take r.2, x ∈ (deliveredOf s.outs).1 := by
   have h := runProgram_K s0 ins (K_fresh s0 hf) hn
-  exact ⟨h.outsWaits, fun r hr x hx => (h.outsDeliv x).mpr ((h.retOk r hr).2 x hx)⟩
+  exact ⟨h.outsWaits, fun r hr x hx => by rw [h.outsDeliv]; exact (h.retOk r hr).2 x hx⟩
 
 theorem C07_barrier_prefix (s0 : St) (hf : Fresh s0) (ins : List In) (hn : noShutdown ins) :
     let s := ins.foldl applyIn s0
     waitIds s.outs = s.retLog.map (·.1) ∧
     ∀ r ∈ s.retLog, ∀ x ∈ s.submitted.take r.2, x ∈ (deliveredOf s.outs).1 := by
   have h := foldl_applyIn_K ins s0 (K_fresh s0 hf) hn
-  exact ⟨h.outsWaits, fun r hr x hx => (h.outsDeliv x).mpr ((h.retOk r hr).2 x hx)⟩
+  exact ⟨h.outsWaits, fun r hr x hx => by rw [h.outsDeliv]; exact (h.retOk r hr).2 x hx⟩
 
 /-- A `wait()` that is still blocked on the completion flag has everything submitted before it
 inside the current round (being loaded, in the input set) or delivered: it is released by the
